@@ -33,9 +33,9 @@ func (e *pathEnv) get(v ssa.Value) (constant.Value, bool) {
 }
 
 type pathResult struct {
-	Ret    *ssa.Return
-	Env    *pathEnv
-	Blocks []int
+	Ret     *ssa.Return
+	Env     *pathEnv
+	Blocks  []int
 	Unknown []ssa.Value // conditions explored both ways
 }
 
